@@ -108,7 +108,7 @@ theorem goodMaxs_of_rep (F : Nat) (H : List Op) (hg : GoodHist H) (a : OrSwot) (
   obtain ⟨⟨o, ho, hts⟩, hn⟩ := ra.vers.maxs m hm X v hv
   have := hg.valid o (hA o ho)
   rw [hts] at this
-  exact ⟨hn, this.1, this.2.1⟩
+  exact ⟨hn, this.1, this.2⟩
 
 /-- **apply_diff_closes_gapfree**: for a replica that has applied a gap-free prefix of every
 origin's operations, applying the difference against a peer through one source — in ANY order of
